@@ -65,7 +65,7 @@ def render_c(c, st, parent=0):
     if k == "cmp":
         return render(c[2], st, 5) + st.ws + c[1] + st.ws + render(c[3], st, 5)
     if k == "not":
-        return st.kw("NOT") + " (" + render_c(c[1], st) + ")"
+        return st.kw("NOT") + "(" + render_c(c[1], st) + ")"
     if k in ("and", "or"):
         p = 2 if k == "and" else 1
         s = render_c(c[1], st, p) + " " + st.kw(k.upper()) + " " + render_c(c[2], st, p + (0 if k == "and" else 0))
